@@ -257,9 +257,11 @@ class Solver:
             self.s.add(z3.Or(term > thr, term < -thr))
             if self.keep_sample and len(st.samples) < 2:
                 txt = self.s.to_smt2()
-                st.samples.append({'label': label, 'smt2_head': txt[:1500], 'smt2_bytes': len(txt)})
+                st.samples.append({'label': label, 'smt2_head': txt[:1500], 'smt2_bytes': len(txt), '_full': txt if len(txt) < 300000 else None})
             r = self.s.check()
             rs = str(r)
+            if self.keep_sample and st.samples and st.samples[-1].get('label') == label and 'z3' not in st.samples[-1]:
+                st.samples[-1]['z3'] = rs
             model = None
             if rs == 'sat':
                 st.sat += 1
@@ -455,3 +457,27 @@ def feasible(taken, timeout_ms=5000):
     sv.keep_sample = False
     sv.add_path(taken)
     return str(sv.s.check()) != 'unsat'
+
+
+def cvc5_verdict(smt2_text, timeout_ms=20000):
+    """second opinion on a dumped query (cvc5 wheel); returns 'sat' | 'unsat' | 'unknown' | 'error: ...'"""
+    try:
+        import cvc5
+        tm = cvc5.TermManager() if hasattr(cvc5, 'TermManager') else None
+        slv = cvc5.Solver(tm) if tm is not None else cvc5.Solver()
+        slv.setOption('tlimit-per', str(timeout_ms))
+        parser = cvc5.InputParser(slv)
+        parser.setStringInput(cvc5.InputLanguage.SMT_LIB_2_6, '(set-logic ALL)\n' + smt2_text, 'q')
+        sm = parser.getSymbolManager()
+        res = None
+        while True:
+            cmd = parser.nextCommand()
+            if cmd.isNull():
+                break
+            out = cmd.invoke(slv, sm)
+            o = str(out).strip()
+            if o in ('sat', 'unsat', 'unknown'):
+                res = o
+        return res or 'unknown'
+    except Exception as e:  # noqa
+        return 'error: %s' % (str(e)[:120],)
